@@ -32,7 +32,8 @@ import CoxeterVerif.Vec
 namespace C16
 open Scalar
 
-abbrev Id := Nat
+/-- array identities (`id(arr)` in Python) -/
+scoped notation "Id" => Nat
 /-- contents of an array, row major -/
 abbrev Arr (α : Type) := List α
 abbrev Heap (α : Type) := List (Id × Arr α)
